@@ -4,6 +4,7 @@ import os, re, subprocess, sys
 ROOT = os.path.dirname(os.path.dirname(os.path.abspath(__file__)))
 def run(t): return subprocess.run([sys.executable, os.path.join(ROOT, "tools", t)], stdout=subprocess.PIPE).stdout.decode()
 p = os.path.join(ROOT, "DESIGN.md"); s = open(p).read()
-s = re.sub(r"<!-- BEGIN STATUS -->.*?<!-- END STATUS -->", "<!-- BEGIN STATUS -->\n" + run("statusreport.py") + "<!-- END STATUS -->", s, flags=re.S)
-s = re.sub(r"<!-- BEGIN SEEDS -->.*?<!-- END SEEDS -->", "<!-- BEGIN SEEDS -->\n" + run("seedreport.py") + "<!-- END SEEDS -->", s, flags=re.S)
+st, sd = run("statusreport.py"), run("seedreport.py")
+s = re.sub(r"<!-- BEGIN STATUS -->.*?<!-- END STATUS -->", lambda m: "<!-- BEGIN STATUS -->\n" + st + "<!-- END STATUS -->", s, flags=re.S)
+s = re.sub(r"<!-- BEGIN SEEDS -->.*?<!-- END SEEDS -->", lambda m: "<!-- BEGIN SEEDS -->\n" + sd + "<!-- END SEEDS -->", s, flags=re.S)
 open(p, "w").write(s)
